@@ -48,6 +48,8 @@ def convert(input_image_stream, output_image_stream):
             repeat = ord(iotostr(f.read(1)))
             c = ord(iotostr(f.read(1)))
         for jj in range(repeat):
+            if ii <= 0:
+                break
             ii = ii - 1
             dump(c >> 4)
             dump(c & 7)
